@@ -130,6 +130,50 @@ impl Check for C03 {
     fn preflight() -> Result<(), String> {
         crate::preflight::decoder_preflight()
     }
+    fn fixed(t: Tier) -> Vec<Case> {
+        // small-scope exhaustive layouts: two records, few points, every pair of cut positions of the two
+        // byte streams into two data packets, with nothing / an index packet / an ignored packet between them
+        use e57ref::scene::{RType, Rec};
+        let rec = |name: &str, ty: RType| Rec { prefix: None, name: name.to_string(), ty };
+        let protos = vec![
+            vec![rec("cartesianX", RType::Int { min: 0, max: 6 }), rec("cartesianY", RType::Double { min: None, max: None }), rec("cartesianZ", RType::Int { min: 5, max: 5 })],
+            vec![rec("cartesianX", RType::Single { min: None, max: None }), rec("cartesianY", RType::Int { min: -4000, max: 4191 }), rec("cartesianZ", RType::Int { min: i64::MIN, max: i64::MAX })],
+            vec![rec("cartesianX", RType::Scaled { min: 0, max: 1, scale: F64(0.5), offset: F64(0.0) }), rec("cartesianY", RType::Int { min: 0, max: (1 << 33) - 1 }), rec("cartesianZ", RType::Single { min: None, max: None })],
+        ];
+        let mut out = Vec::new();
+        for (pi, proto) in protos.iter().enumerate() {
+            for n in if t == Tier::Thorough { vec![0u32, 1, 2, 5, 9] } else { vec![1u32, 5] } {
+                let lens: Vec<usize> = proto.iter().map(|r| (n as usize * r.ty.width() as usize + 7) / 8).collect();
+                let step = if t == Tier::Thorough { 1 } else { 3 };
+                for c0 in (0..=lens[0]).step_by(1) {
+                    for c1 in (0..=lens[1]).step_by(step) {
+                        for (bi, between) in [None, Some(Pk::Index(0)), Some(Pk::Index(2)), Some(Pk::Ignored(0)), Some(Pk::Ignored(3))].into_iter().enumerate() {
+                            let mut packets = vec![Pk::Data(vec![c0 as u16, c1 as u16, ((c0 + c1) % (lens[2] + 1)) as u16])];
+                            if let Some(b) = between {
+                                packets.push(b);
+                            }
+                            let scene = Program {
+                                guid: format!("{{layout-{pi}-{n}-{c0}-{c1}-{bi}}}"),
+                                ops: vec![Op::Cloud(prog::CloudSpec { guid: "{c}".into(), proto: proto.clone(), n, seed: 77 + pi as u64, nan_ok: true, meta: Default::default(), finalize: true })],
+                                end: prog::End::Finalize,
+                            };
+                            let mut cl = e57ref::encode::CloudLayout { packets, ..Default::default() };
+                            cl.publish_index = bi % 2 == 1;
+                            cl.header_gap = (c0 % 3) as u8;
+                            out.push(Case { scene, layout: Layout { clouds: vec![cl], ..Default::default() } });
+                        }
+                    }
+                }
+            }
+        }
+        out
+    }
+    fn describe_fixed(t: Tier) -> Option<String> {
+        Some(format!(
+            "small-scope exhaustive layouts: 3 prototypes (3-bit / double / zero-width; single / 13-bit / 64-bit; 1-bit scaled / 33-bit / single) x {} point counts x every cut position of the first two byte streams into two data packets x {{nothing, index packet, ignored packet}} between them",
+            if t == Tier::Thorough { 5 } else { 2 }
+        ))
+    }
     fn gen(s: &mut Src, _t: Tier) -> Case {
         let o = GenOpts { density: 3, max_ops: 3, max_values: 20_000, blobs: false, ..GenOpts::default() };
         let scene = scene_spec(s, &o);
